@@ -12,6 +12,8 @@ import (
 	sdk "github.com/cosmos/cosmos-sdk/types"
 	"github.com/ethereum/go-ethereum/common"
 
+	"github.com/teleport-network/teleport/syscontracts"
+	stakingcontract "github.com/teleport-network/teleport/syscontracts/staking"
 	aggregatetypes "github.com/teleport-network/teleport/x/aggregate/types"
 	tsstypes "github.com/teleport-network/teleport/x/xibc/clients/tss-client/types"
 	xibcclient "github.com/teleport-network/teleport/x/xibc/core/client"
@@ -294,7 +296,19 @@ func (w *worldA) attemptTM(n, x *core.Node, signer *core.Account, kind string) {
 		// a fresh packet x -> n
 		sp := s.RandSendSpec(nil)
 		sp.Src, sp.Dst, sp.Token, sp.Amount, sp.FeeToken, sp.FeeAmount = x, n, nil, nil, nil, nil
-		sp.Call = s.CallTo(n, "counter")
+		// the destination call succeeds, fails inside the contract (result code != 0), or fails as a whole
+		// (a staking action without funds makes the post-processing hook fail): three different places build the ack
+		callKind := []string{"counter", "counter", "reverter", "hard-failure"}[s.Rng.Intn(4)]
+		if callKind == "hard-failure" {
+			vals := n.App.StakingKeeper.GetAllValidators(n.Ctx())
+			data, err := stakingcontract.StakingContract.ABI.Pack("delegate", vals[0].OperatorAddress, big.NewInt(1_000_000))
+			if err != nil {
+				return
+			}
+			sp.Call = pkt.CallSpec{Kind: callKind, Contract: syscontracts.StakingContractAddress, Data: data}
+		} else {
+			sp.Call = s.CallTo(n, callKind)
+		}
 		_, ps := s.Send(sp)
 		if len(ps) != 1 {
 			return
@@ -324,7 +338,7 @@ func (w *worldA) attemptTM(n, x *core.Node, signer *core.Account, kind string) {
 			if p.AckWritten == nil || a.ABIDecode(p.AckWritten) != nil || a.Relayer != want {
 				w.r.Violation(w.cid, "ack-relayer/not-the-registered-counterparty-address", map[string]interface{}{"got": a.Relayer, "want": want, "signer": signer.Name, "chain": x.Name})
 			}
-			w.r.Count("ack_relayer_fields_checked", 1)
+			w.r.Count(fmt.Sprintf("ack_relayer_fields_checked/%s/ack-code-%d", callKind, a.Code), 1)
 		}
 	case "ack":
 		// a packet n -> x, received on x by the infrastructure relayer, acknowledged by signer
